@@ -206,6 +206,19 @@ var c04Nest = []struct {
 	{"index, slice, index after a star", nil, []string{"a", "[", "*", "]"}, []string{"[", "0", "]", "[", "1", ":", "]", "[", "0", "]"}},
 	{"dotted path ending in a call", nil, []string{"a"}, []string{".", "a", ".", "length", "(", "@", ")"}},
 	{"adjacent list wildcards", nil, []string{"a"}, []string{"[", "*", "]", "[", "*", "]"}},
+	// two or three bracketing constructs alternating (whatever keeps track of open delimiters keeps track of their kinds)
+	{"parenthesis in list", []string{"[", "("}, []string{"a"}, []string{")", "]"}},
+	{"list in parenthesis", []string{"(", "["}, []string{"a"}, []string{"]", ")"}},
+	{"parenthesis in hash", []string{"{", "k", ":", "("}, []string{"a"}, []string{")", "}"}},
+	{"parenthesis in filter", []string{"a", "[?", "("}, []string{"a"}, []string{")", "]"}},
+	{"list in call", []string{"f", "(", "["}, []string{"a"}, []string{"]", ")"}},
+	{"not of parenthesis", []string{"!", "("}, []string{"a"}, []string{")"}},
+	{"hash in list in parenthesis", []string{"(", "[", "{", "k", ":"}, []string{"a"}, []string{"}", "]", ")"}},
+	{"parenthesis then index", []string{"("}, []string{"a"}, []string{")", "[", "0", "]"}},
+	{"pipe in parenthesis", []string{"(", "a", "|"}, []string{"a"}, []string{")"}},
+	{"or in list", []string{"[", "a", "||"}, []string{"a"}, []string{"]"}},
+	{"filter in hash in call", []string{"f", "(", "{", "k", ":", "a", "[?"}, []string{"a"}, []string{"]", "}", ")"}},
+	{"dotted hash", []string{"a", ".", "{", "k", ":"}, []string{"a"}, []string{"}"}},
 }
 
 func c04Long(r *mon.Run) {
